@@ -24,7 +24,7 @@ func propC12() *fw.Prop {
 var hostileByType = map[string][]struct{ text, class string }{
 	"number":   {{"", model.EBadNumber}, {"abc", model.EBadNumber}, {"1.5", model.EBadNumber}, {"１２", model.EBadNumber}, {" 5", model.EBadNumber}, {"5 ", model.EBadNumber}, {"0x10", model.EBadNumber}, {"1e3", model.EBadNumber}, {"--5", model.EBadNumber}, {"5-", model.EBadNumber}, {"1_000", model.EBadNumber}},
 	"monetary": {{"", model.EBadMonetary}, {"USD", model.EBadMonetary}, {"USD 1 2", model.EBadMonetary}, {"USD  1", model.EBadMonetary}, {"USD x", model.EBadNumber}, {"USD 1.0", model.EBadNumber}, {"USD ", model.EBadNumber}, {"USD 0x1F", model.EBadNumber}, {"USD 1e2", model.EBadNumber}},
-	"portion":  {{"", model.EBadPortion}, {"abc", model.EBadPortion}, {"150%", model.EBadPortion}, {"3/2", model.EBadPortion}, {"1/0", model.EBadPortion}, {"0/0", model.EBadPortion}, {"-1/2", model.EBadPortion}, {"1//2", model.EBadPortion}, {"50", model.EBadPortion}, {"50 %", model.EBadPortion}, {"1/2/3", model.EBadPortion}, {".5%", model.EBadPortion}, {"100.1%", model.EBadPortion}, {"1/2 ", model.EBadPortion}},
+	"portion":  {{"", model.EBadPortion}, {"abc", model.EBadPortion}, {"150%", model.EBadPortion}, {"3/2", model.EBadPortion}, {"1/0", model.EBadPortion}, {"0/0", model.EBadPortion}, {"1/00", model.EBadPortion}, {"0/000", model.EBadPortion}, {"7 / 00", model.EBadPortion}, {"12/ 0", model.EBadPortion}, {"00/00", model.EBadPortion}, {"101%", model.EBadPortion}, {"100.0001%", model.EBadPortion}, {"2/1", model.EBadPortion}, {"%", model.EBadPortion}, {"1/", model.EBadPortion}, {"/2", model.EBadPortion}, {"1/2%", model.EBadPortion}, {"0x1/2", model.EBadPortion}, {"1e0/2", model.EBadPortion}, {"-1/2", model.EBadPortion}, {"1//2", model.EBadPortion}, {"50", model.EBadPortion}, {"50 %", model.EBadPortion}, {"1/2/3", model.EBadPortion}, {".5%", model.EBadPortion}, {"100.1%", model.EBadPortion}, {"1/2 ", model.EBadPortion}},
 	"account":  {{"", model.EBadAccount}, {"<kept>", model.EBadAccount}, {"a b", model.EBadAccount}, {"@a", model.EBadAccount}, {"a:", model.EBadAccount}, {"é", model.EBadAccount}, {"a\n", model.EBadAccount}},
 }
 
@@ -65,6 +65,11 @@ func plant(r *rng.R, cs *gen.Case) *fault {
 			// the FIRST declared plain variable with a bad text decides the error: only poison d if
 			// no variable declared before it could also fail — all others keep their good values.
 			h := hs[r.Intn(len(hs))]
+			if d.Type == "portion" && r.Chance(1, 3) {
+				// n/0…0 with any number of digits and zeros
+				h.text = randDigits(r, r.Range(1, 4)) + r.Pick("/", " /", "/ ", " / ") + strings.Repeat("0", r.Range(1, 5))
+				h.class = model.EBadPortion
+			}
 			cs.Vars[d.Name] = h.text
 			return &fault{kind: "var-text:" + d.Type + ":" + h.text, classes: []string{h.class}}
 		case 1: // missing variable
@@ -283,7 +288,7 @@ func runC12(c *fw.Ctx) {
 		l.MaxStmts = 3
 	})
 	// ---- (a) planted faults ----
-	n := c.N(40000, 2500000)
+	n := c.N(100000, 2500000)
 	for i := 0; i < n; i++ {
 		id := "plant/" + itoa(i)
 		if !c.Want(i, id) {
@@ -341,7 +346,7 @@ func runC12(c *fw.Ctx) {
 	}
 	// ---- (b) store-fault enumeration ----
 	scfg := with(func(l *gen.LCfg) { l.POriginVar, l.PAbsent, l.MaxStmts = 50, 5, 3 })
-	n = c.N(8000, 400000)
+	n = c.N(20000, 400000)
 	for i := 0; i < n; i++ {
 		id := "storefault/" + itoa(i)
 		if !c.Want(1_000_000_0+i, id) {
@@ -403,7 +408,7 @@ func runC12(c *fw.Ctx) {
 		}
 	}
 	// ---- (c) ill-typed scripts: crash and atomicity only ----
-	n = c.N(20000, 1500000)
+	n = c.N(60000, 1500000)
 	for i := 0; i < n; i++ {
 		id := "illtyped/" + itoa(i)
 		if !c.Want(2_000_000_0+i, id) {
